@@ -259,6 +259,6 @@ def run(tier, seed):
 MANIFEST = {
     "engine": "G",
     "technique": "stateless model checking of the real uploader/downloader over a virtual grid: exhaustive configuration grid at the default schedule plus all delivery orders within a deviation bound",
-    "text": "Every configuration of a boundary-focused grid (k<=N<=4 plus 16-share corners in quick; <=7 in thorough; segment sizes around k; sizes around literal threshold and segment multiples; 1, N and N+3 servers) is uploaded and downloaded on real storage servers; for a sub-grid all schedules of the upload and of the download within the deviation bound are executed. Coverage is exact for those bounds.",
+    "text": "Every configuration of a boundary-focused grid (k<=N<=4 plus 16-share corners in quick; <=7 in thorough; segment sizes around k; sizes around literal threshold and segment multiples; 1, N and N+3 servers) is uploaded and downloaded on real storage servers; for a sub-grid all schedules of the upload and of the download within the deviation bound are executed. Coverage is exact for those bounds. After the whole-file read, a fresh node object's FIRST read asks for the tail from the start of the last segment.",
     "note": "All nondeterminism (reactor, eventual queue, time, urandom) is owned by vt.boot; each execution is an implementation run. Large files and real network back-pressure are outside the bound.",
 }
